@@ -9,6 +9,9 @@ CEV = ["c0", "c1"]
 MODES = {"mq": {"start": "q1", "wq": True}, "mqc": {"start": "q2", "wq": True},
          "mp": {"start": "q3", "wq": False}, "mr": {"start": None, "wq": False}}
 MSTART = ["mode_mq_starting", "mode_mqc_starting", "mode_mp_starting"]
+GMODES = ["gm1", "gm2", "gm3"]
+GEV = ["ball_starting", "ball_ending", "game_ending", "mode_game_stopping"] + \
+      ["mode_%s_starting" % m for m in GMODES] + ["mode_%s_stopping" % m for m in GMODES]
 RELAYS = {"relay": {"req": "c02_relay_req", "ack": "c02_relay_ack", "ev": "q3"},
           "mr": {"req": "c02_mr_req", "ack": "c02_mr_ack", "ev": "q0"}}
 EPS = 1e-9
@@ -46,6 +49,7 @@ class Inst:
         self.cur = dict(kw)       # relay: arguments as updated so far
         self.false_seen = False   # boolean
         self.on_done = None
+        self.stuck_exempt = False  # MPF-internal handlers may hold this instance without us seeing it
 
     def __repr__(self):
         return "<%s#%s %s>" % (self.name, self.iid, self.typ)
@@ -129,7 +133,7 @@ class World:
         """Bounded liveness: an instance without outstanding wait progresses in the instant that enabled it."""
         now = self.now()
         for inst in self.all:
-            if inst.done or inst.waits or not inst.has_cb:
+            if inst.done or inst.waits or not inst.has_cb or inst.stuck_exempt:
                 continue
             if now > inst.progress_t + EPS:
                 self.ctx.violation("stuck", "%s never progressed" % inst.name,
@@ -881,3 +885,170 @@ class World:
             self.ctx.violation("stuck", "queue task leaked", "%d queue dispatcher tasks still pending at quiescence"
                                % len(self.ev._queue_tasks))
         self.log("end", len(self.all), self.skipped_posts)
+
+
+class GameWorld(World):
+    """Game family: the queue events are MPF's own (posted by the game, the mode controller and the modes of a
+    running game).  Every queue event posted by anybody is an instance; its completion is observed through a
+    pass-through wrapper around the callback given to EventManager._post.  Holders owned by the workload are the
+    usual waiter/coroutine handlers; MPF's own holders (mode controller on ball_ending, game on mode_game_stopping)
+    are not visible, therefore
+
+      * the same-instant rule `stuck` is applied to mode_<m>_starting / mode_<m>_stopping only (nobody inside MPF
+        waits on those in this machine),
+      * for every instance: callback at most once, not while one of our waits is outstanding, our handlers in
+        priority order and never overlapping an outstanding wait of ours, and - the statement's "completes once
+        every wait has been cleared" - at quiescence (all our waits released, 10 s without any event) every queue
+        event that was posted has completed and no dispatcher task is left (`never_completes`, `stuck`).
+    """
+
+    LOG_EVENTS = ("ball_started", "ball_ended", "game_started", "game_ended", "ball_will_end")
+
+    def setup(self):
+        from mpf.core.events import EventManager
+        self.empty_inflight = {}
+        self.shared_queues = []
+        self.waited_queues = []
+        self.sys_by_name = {}
+        self.nsys = 0
+        self.last_start_done_t = None
+        self.last_ball_ending_clear_t = None
+        m = self.m
+        m.ball_controller.num_balls_known = 3
+        self.pf = 0
+
+        def add_ball_stub(*args, **kwargs):
+            # MpfFakeGameTestCase: no ball devices, the playfield just counts
+            self.pf += 1
+        m.playfield.add_ball = add_ball_stub
+
+        orig = EventManager._post
+        events = self.ev
+        world = self
+
+        def _post(self_, event, ev_type, callback, **kwargs):
+            if self_ is events:
+                if ev_type == "queue":
+                    inst = world.sys_post(event, kwargs, callback is not None)
+                    if callback is not None:
+                        inner = callback
+
+                        def callback(**kw):            # pass-through: record, then the real callback
+                            world.sys_done(inst, kw)
+                            return inner(**kw)
+                else:
+                    world.plain_post(event, kwargs)
+            return orig(self_, event, ev_type, callback, **kwargs)
+        EventManager._post = _post
+
+        for c in CEV:
+            self.ev.add_handler(c, self._mk_c_handler(c), priority=1)
+        for spec in self.plan["handlers"]:
+            self.hreg[spec["hid"]] = {"spec": spec, "key": None, "fn": self._mk_handler(spec), "intervals": []}
+            self.register(spec["hid"])
+        self.start_game()
+        self.sim.run(0.05)
+
+    # -- observation ---------------------------------------------------------------------------------
+    def sys_post(self, name, kwargs, has_cb):
+        self.nsys += 1
+        inst = Inst("S%d" % self.nsys, name, "queue", "system", {}, self.now(), self.tick("post"), has_cb=has_cb)
+        inst.stuck_exempt = not (name.startswith("mode_gm") and (name.endswith("_starting") or
+                                                                  name.endswith("_stopping")))
+        self.all.append(inst)
+        self.sys_by_name.setdefault(name, []).append(inst)
+        self.log("post", name, inst.iid)
+        return inst
+
+    def sys_done(self, inst, kw):
+        if inst.name.endswith("_starting") and inst.name.startswith("mode_gm"):
+            self.last_start_done_t = self.now()
+        self.complete(inst, {})
+
+    def plain_post(self, name, kwargs):
+        if name in self.LOG_EVENTS or (name.startswith("mode_") and name.endswith(("_started", "_stopped"))):
+            self.log("ev", name)
+            if name == "ball_ended":
+                self.ctx.probe("game_ball_ended")
+            elif name == "game_ended":
+                self.ctx.probe("game_ended")
+            elif name.endswith("_stopped") and any(i.name == "ball_ending" and not i.done for i in self.all):
+                self.ctx.probe("game_mode_stopped_by_ball_end")
+
+    def attribute(self, evname, kwargs):
+        hid = kwargs.get("_c02_hid")
+        for inst in self.sys_by_name.get(evname, []):
+            if not inst.done:
+                return inst
+        raise AssertionError("harness: handler of %s called without a pending instance (hid %r)" % (evname, hid))
+
+    def required_handlers(self, inst, seq):
+        req = []
+        for hid in sorted(self.hreg):
+            reg = self.hreg[hid]
+            if reg["spec"]["ev"] == inst.name and \
+                    any(a <= inst.seq and (b is None or b >= seq) for a, b in reg["intervals"]):
+                req.append(("h", hid))
+        return req
+
+    def wait_begin(self, inst, wid, desc):
+        super().wait_begin(inst, wid, desc)
+        self.ctx.probe("game_queue_event_held")
+        if inst.name == "ball_ending":
+            self.ctx.probe("game_ball_ending_held")
+        elif inst.name.endswith("_starting"):
+            self.ctx.probe("game_mode_starting_held")
+        elif inst.name.endswith("_stopping"):
+            self.ctx.probe("game_mode_stopping_held")
+
+    def wait_end(self, inst, wid):
+        had = wid in inst.waits
+        super().wait_end(inst, wid)
+        if had and inst.name == "ball_ending":
+            self.last_ball_ending_clear_t = self.now()
+
+    def complete(self, inst, kwargs):
+        super().complete(inst, kwargs)
+        t = self.now()
+        if self.last_start_done_t is not None and self.last_ball_ending_clear_t is not None and \
+                abs(self.last_start_done_t - t) <= EPS and abs(self.last_ball_ending_clear_t - t) <= EPS:
+            # a held ball_ending carried on in the very instant in which a held mode start completed
+            self.ctx.probe("game_holds_released_together")
+
+    # -- driving the game ----------------------------------------------------------------------------
+    def start_game(self):
+        if self.m.game is None:
+            self.log("start_game")
+            self.sim.hit_switch("s_start", 1)
+            self.sim.hit_switch("s_start", 0)
+
+    def do_op(self, op):
+        self.check_stuck()
+        k = op["op"]
+        game = self.m.game
+        self.log("op", k, op.get("m") or op.get("c"))
+        if k == "gstart":
+            self.ev.post("c02_start_%s" % op["m"])
+        elif k == "gstop":
+            self.ev.post("c02_stop_%s" % op["m"])
+        elif k == "drain":
+            if game is not None and game.balls_in_play > 0:
+                self.pf = max(0, self.pf - 1)
+                self.ev.post_relay("ball_drain", balls=1)
+        elif k == "end_ball":
+            if game is not None and game.balls_in_play > 0:
+                game.end_ball()
+        elif k == "end_game":
+            if game is not None:
+                game.end_game()
+        elif k == "start_game":
+            self.start_game()
+        elif k == "postc":
+            self.ev.post(op["c"])
+        elif k == "clr":
+            self.clear_pool(op["c"], "direct")
+
+    def quiescent(self):
+        if any(i.has_cb and not i.done for i in self.all):
+            return False
+        return not any(i.waits for i in self.all)
